@@ -3,7 +3,9 @@
 from jaqalpaq.core.algorithm.visitor import Visitor
 from jaqalpaq.core.circuit import Circuit
 from jaqalpaq.core.block import BlockStatement, LoopStatement
+from jaqalpaq.core.gate import GateStatement
 from jaqalpaq.core.gatedef import GateDefinition
+from jaqalpaq.core.macro import Macro
 
 
 def expand_subcircuits(circuit, prepare_def=None, measure_def=None):
@@ -55,6 +57,7 @@ class SubcircuitExpander(Visitor):
     def __init__(self, prepare_def, measure_def):
         self.prepare_def = prepare_def
         self.measure_def = measure_def
+        self.macros = {}
 
     def visit_default(self, obj):
         """By default we leave all objects alone. Note that the object is not copied."""
@@ -62,12 +65,26 @@ class SubcircuitExpander(Visitor):
 
     def visit_Circuit(self, circuit):
         new_circuit = Circuit(native_gates=circuit.native_gates)
-        new_circuit.macros.update(circuit.macros)
+        # Subcircuit blocks may also appear in the bodies of macros.
+        self.macros = {}
+        for name, macro in circuit.macros.items():
+            self.macros[name] = self.visit(macro)
+        new_circuit.macros.update(self.macros)
         new_circuit.constants.update(circuit.constants)
         new_circuit.registers.update(circuit.registers)
         new_circuit.usepulses.extend(circuit.usepulses)
         new_circuit.body.statements.extend(self.visit(circuit.body).statements)
         return new_circuit
+
+    def visit_Macro(self, macro):
+        return Macro(macro.name, macro.parameters, self.visit(macro.body))
+
+    def visit_GateStatement(self, gate):
+        """Make a call to a macro refer to the expanded definition."""
+        macro = self.macros.get(gate.name)
+        if macro is None:
+            return gate
+        return GateStatement(macro, gate.parameters)
 
     def visit_LoopStatement(self, loop):
         return LoopStatement(loop.iterations, self.visit(loop.statements))
